@@ -31,6 +31,10 @@ func (pkd PubKeyDecorator) AnteHandle(ctx sdk.Context, tx sdk.Tx, simulate bool,
 	if err != nil {
 		return ctx, err
 	}
+	// one signer info per required signer (the SDK's signature decorators insist on the same)
+	if len(pubkeys) != len(signers) {
+		return ctx, sdkerrors.ErrUnauthorized.Wrapf("invalid number of signer;  expected: %d, got %d", len(signers), len(pubkeys))
+	}
 	for i := range pubkeys {
 		if err = checkPubKeyDisabled(ctx, pkd.ak, signers[i]); err != nil {
 			return ctx, err
